@@ -342,9 +342,28 @@ def run(ctx, b, drv):
     import resource
     soft, hard = resource.getrlimit(resource.RLIMIT_AS)
     resource.setrlimit(resource.RLIMIT_AS, (3 << 30, hard))
+    # an allocation refused in the middle of unpickling a damaged file can leave a bytearray of the unpickler with exported buffers; CPython reports that
+    # through the unraisable hook when the object is freed ("SystemError: deallocated bytearray object has exported buffers") - noise of the interpreter about
+    # its own garbage; it is counted, not printed
+    import sys as _sys
+    old_hook = _sys.unraisablehook
+    seen = []
+    _sys.unraisablehook = lambda u: seen.append(type(u.exc_value).__name__)
+    # (CPython's bytearray deallocator reports it with PyErr_Print, i.e. through sys.excepthook, from inside pickle.load)
+    old_excepthook = _sys.excepthook
+
+    def quiet_excepthook(t, v, tb):
+        if t is SystemError and 'deallocated bytearray' in str(v):
+            seen.append('SystemError')
+        else:
+            old_excepthook(t, v, tb)
+    _sys.excepthook = quiet_excepthook
     try:
         return run_limited(ctx, b, drv)
     finally:
+        import gc as _gc
+        _gc.collect()                       # free that garbage while the quiet hook is in place (it stays in place: the process only reports and exits after this)
+        ctx.cov['interpreter_unraisable_during_unpickling'] = len(seen)
         resource.setrlimit(resource.RLIMIT_AS, (soft, hard))
 
 
